@@ -115,6 +115,9 @@ func plainRunner() xrh.FunctionRunner {
 
 var prepared = map[string]*simkube.Store{}
 
+// samplesA limits the samples of Part A so that Part B gets some too.
+var samplesA int
+
 func prepare(state string) *simkube.Store {
 	if p, ok := prepared[state]; ok {
 		return p.Clone()
@@ -376,7 +379,7 @@ func countByStep(n int, fn func(i int) string) map[string]int {
 
 // compareCalls checks the recorded request sequence against the expected one,
 // sequence for sequence.
-func compareCalls(r *explore.Run, prims []string, exp *expectation, got []call) {
+func compareCalls(r *explore.Run, prims []string, exp *expectation, got []call, failure string) {
 	n := len(got)
 	if len(exp.calls) < n {
 		n = len(exp.calls)
@@ -434,6 +437,9 @@ func compareCalls(r *explore.Run, prims []string, exp *expectation, got []call) 
 		}
 		if gn[f] > wn[f] {
 			r.Failf("rounds/extra-call", "pipeline %v: function %q was called %d times, the contract needs %d (requirements of the last two rounds were equal, or the pipeline had already failed)", prims, f, gn[f], wn[f])
+		}
+		if gn[f] < wn[f] && gn[f] > 0 && strings.Contains(failure, "stabilize") && !(exp.fail == "unstable" && exp.failStep == i) {
+			r.Failf("rounds/stable-step-failed", "pipeline %v: the requirements of function %q stabilise with call %d (<= MaxRequirementsIterations+1 = %d), yet after %d calls the reconcile failed: %s", prims, f, wn[f], maxIter+1, gn[f], failure)
 		}
 		if gn[f] < wn[f] {
 			r.Failf("rounds/missing-call", "pipeline %v: function %q was called %d times, the contract needs %d (its requirements had not stabilised / the step was not reached)", prims, f, gn[f], wn[f])
@@ -642,7 +648,7 @@ func pipelineBody(r *explore.Run, rep *report.R, scName string, nsteps int, alph
 		r.Logf("XR after: status %v", xrAfter.Object["status"])
 		r.Logf("expected events %v conds %+v final %v", exp.events, exp.conds, exp.final)
 	}
-	compareCalls(r, prims, exp, calls)
+	compareCalls(r, prims, exp, calls, str(synced["message"]))
 
 	switch exp.fail {
 	case "":
@@ -685,7 +691,8 @@ func pipelineBody(r *explore.Run, rep *report.R, scName string, nsteps int, alph
 		nt = report.Hash(state, prims)
 	}
 	rep.Eval(scName, outcome, nt)
-	if nt != "" && rep.WantSample() && len(calls) > nsteps {
+	if nt != "" && samplesA < 1 && rep.WantSample() && len(calls) > nsteps && nsteps > 1 && (len(finalNames) > 0 || exp.fail != "") {
+		samplesA++
 		rep.Sample(map[string]any{"scenario": scName, "observed_state": state, "pipeline": prims, "calls_per_step": perStep, "reference_failure": exp.fail, "final_desired": finalNames, "result_events": len(exp.events), "conditions": len(exp.conds)})
 	}
 }
@@ -719,7 +726,8 @@ func TestCheck(t *testing.T) {
 		scs = append(scs, report.Scenario{Name: name, Bound: 0, Wrap: report.Bubble(t), Body: func(r *explore.Run) { pipelineBody(r, rep, name, k, primitives) }})
 	}
 	rep.SelfCheck(t, scs[len(scs)-1], func() { prepared = map[string]*simkube.Store{} })
-	scs = append(scs, runnerScenarios(t, rep)...)
+	// Part B first: it is small, and its samples then make it into the merged evidence.
+	scs = append(runnerScenarios(t, rep), scs...)
 	rep.RunScenarios(t, scs)
 	stopServers()
 	rep.Write(t)
